@@ -91,12 +91,17 @@ pub struct Cfg {
     /// field names that capture a helper the generated code calls
     pub capturing_names: bool,
     pub floats: bool,
+    /// float fields may hold +Inf, -Inf, NaN (computed at run time: `1.0 / fzero()`)
+    pub nonfinite: bool,
     pub to_json: bool,
     pub to_string: bool,
 }
 
 fn gen_ft(rng: &mut Rng, cfg: &Cfg, allowed_named: &[usize], unit_ok: bool) -> FT {
     let k = rng.below(10);
+    if cfg.nonfinite && rng.chance(1, 2) {
+        return FT::Float(*rng.pick(&[32u32, 64]));
+    }
     if k < 3 && !allowed_named.is_empty() {
         return FT::Named(*rng.pick(allowed_named));
     }
@@ -237,6 +242,14 @@ pub fn gen_val(rng: &mut Rng, cfg: &Cfg, defs: &[Def], t: &FT, depth: usize, his
             V::Int(v)
         }
         FT::Float(bits) => {
+            if cfg.nonfinite && rng.chance(2, 3) {
+                let (z, one) = if *bits == 32 { ("fzero32()", "1.0f32") } else { ("fzero()", "1.0") };
+                return match rng.below(3) {
+                    0 => V::Float(f64::INFINITY, format!("({} / {})", one, z)),
+                    1 => V::Float(f64::NEG_INFINITY, format!("((-{}) / {})", one, z)),
+                    _ => V::Float(f64::NAN, format!("({} / {})", z, z)),
+                };
+            }
             let (x, lit) = *rng.pick(if *bits == 32 { F32S } else { F64S });
             let neg = rng.chance(1, 4) && x != 0.0;
             V::Float(if neg { -x } else { x }, format!("{}{}{}", if neg { "-" } else { "" }, lit, if *bits == 32 { "f32" } else { "" }))
@@ -303,7 +316,9 @@ fn val_src(rng: &mut Rng, defs: &[Def], t: &FT, v: &V) -> String {
             if *x < 0 { format!("(-{}{})", -x, suf) } else { format!("{}{}", x, suf) }
         }
         (_, V::Float(_, lit)) => {
-            if let Some(rest) = lit.strip_prefix('-') {
+            if lit.starts_with('(') {
+                lit.clone()
+            } else if let Some(rest) = lit.strip_prefix('-') {
                 format!("(-{})", rest)
             } else {
                 lit.clone()
@@ -362,6 +377,9 @@ pub fn program_src(rng: &mut Rng, cfg: &Cfg, defs: &[Def], vals: &[(usize, V)]) 
             }
         }
     }
+    if cfg.nonfinite {
+        writeln!(src, "fn fzero() -> float64 {{ 0.0 }}\nfn fzero32() -> float32 {{ 0.0f32 }}\n").unwrap();
+    }
     writeln!(src, "fn main() -> unit {{").unwrap();
     for (k, (i, v)) in vals.iter().enumerate() {
         writeln!(src, "    let v{} = {};", k, val_src(rng, defs, &FT::Named(*i), v)).unwrap();
@@ -396,7 +414,7 @@ fn val_sexp(defs: &[Def], v: &V) -> S {
         V::Unit => a("unit"),
         V::Bool(b) => tagged("bool", vec![a(b.to_string())]),
         V::Int(x) => tagged("int", vec![n(x)]),
-        V::Float(x, lit) => tagged("float", vec![n(if lit.ends_with("f32") { 32 } else { 64 }), n(x.to_bits())]),
+        V::Float(x, lit) => tagged("float", vec![n(if lit.contains("f32") || lit.contains("fzero32") { 32 } else { 64 }), n(x.to_bits())]),
         V::Str(s) => tagged("str", s.chars().map(|c| n(c as u32)).collect()),
         V::Struct(i, vs) => {
             let mut items = vec![a(&defs[*i].name)];
@@ -611,19 +629,21 @@ pub fn main(args: &util::Args) {
         let mut root = Rng::new(args.seed);
         let mut rng = root.fork(i as u64 ^ 0xC18);
         // streams: features that used to fail (or still do) are kept apart so that they cannot mask others
-        let stream = match i % 10 {
-            0 | 1 | 2 => "base",
-            3 | 4 => "strings",
-            5 | 6 => "prims",
-            7 => "capture",
-            8 => "floats",
-            _ => "all",
+        let stream = match i % 20 {
+            0..=5 => "base",
+            6..=9 => "strings",
+            10..=13 => "prims",
+            14 | 15 => "capture",
+            16 | 17 => "floats",
+            18 => "all",
+            _ => "nonfinite",
         };
         let cfg = Cfg {
             all_strings: matches!(stream, "strings" | "all"),
-            all_prims: matches!(stream, "prims" | "floats" | "all"),
+            all_prims: matches!(stream, "prims" | "floats" | "all" | "nonfinite"),
             capturing_names: matches!(stream, "capture" | "all"),
-            floats: matches!(stream, "floats"),
+            floats: matches!(stream, "floats" | "nonfinite"),
+            nonfinite: stream == "nonfinite",
             to_json: i % 7 != 5,
             to_string: i % 7 != 6,
         };
@@ -662,6 +682,30 @@ pub fn main(args: &util::Args) {
         let es: String = vals.iter().map(|(i, v)| spec_string(&defs, &FT::Named(*i), v) + "\n").collect();
         writeln!(out, "{}\tEXPJSON\t{}", id, esc_line(&ej.join("\n"))).unwrap();
         writeln!(out, "{}\tEXPSTR\t{}", id, esc_line(&es)).unwrap();
+        emit(&id, &dir, &src, &mut out);
+    }
+    // minimised past failures, and the corpus programs that use the derives (their .out files were recorded from real Go)
+    if let Ok(rd) = std::fs::read_dir(util::verif_root().join("corpus/C18")) {
+        let mut files: Vec<_> = rd.filter_map(|e| e.ok().map(|e| e.path())).filter(|p| p.extension().is_some_and(|x| x == "gom")).collect();
+        files.sort();
+        for f in files {
+            let Ok(src) = std::fs::read_to_string(&f) else { continue };
+            let id = format!("corpus:C18/{}", f.file_name().unwrap().to_string_lossy());
+            writeln!(out, "{}\tCORPUS\tnone\t", id).unwrap();
+            emit(&id, &dir, &src, &mut out);
+        }
+    }
+    for d in util::corpus_pipeline_dirs() {
+        let path = d.join("main.gom");
+        let Ok(src) = std::fs::read_to_string(&path) else { continue };
+        if !src.contains("#[derive(") {
+            continue;
+        }
+        let id = format!("repo:{}", d.file_name().unwrap().to_string_lossy());
+        match std::fs::read_to_string(d.join("main.gom.out")) {
+            Ok(exp) => writeln!(out, "{}\tCORPUS\tout\t{}", id, esc_line(&exp)).unwrap(),
+            Err(_) => writeln!(out, "{}\tCORPUS\tnone\t", id).unwrap(),
+        }
         emit(&id, &dir, &src, &mut out);
     }
     // %g cross-validation: Rust's shortest digits (go_g) vs the Lean showFloat, on random bit patterns
